@@ -35,7 +35,8 @@ class ExecHandler(Virtual):
         newenv["SELECTOR"] = self.selector
         newenv["REQUEST"] = self.getselector()
         if self.searchrequest:
-            newenv["SEARCHREQUEST"] = self.searchrequest
+            # An environment string cannot carry a NUL byte
+            newenv["SEARCHREQUEST"] = self.searchrequest.replace("\0", "")
         wfile.flush()
 
         args = [self.getfspath()]
